@@ -127,9 +127,9 @@ func receive(data []byte, out net.Conn) {
 	var cblen uint16
 	binary.Read(buf, binary.LittleEndian, &cblen)
 	pkt := make([]byte, cblen)
-	binary.Read(buf, binary.LittleEndian, &pkt)
+	n, _ := io.ReadFull(buf, pkt)
 
-	out.Write(pkt)
+	out.Write(pkt[:n])
 }
 
 // wrapSyscallError takes an error and a syscall name. If the error is
